@@ -258,17 +258,27 @@ class Ctx:
                     name = mm.group(1)
                     theorems.append((m, (ns + "." if ns else "") + name))
         self.obligations = [t for _, t in theorems]
-        # textual audit of every file in the import closure that is ours
+        # textual audit of every file of ours in the import closure of the property modules and the driver
         bad = []
-        for dirpath, _, files in os.walk(os.path.join(LEAN_DIR, "GardenVerif")):
-            for f in files:
-                if f.endswith(".lean"):
-                    txt = open(os.path.join(dirpath, f)).read()
-                    txt = re.sub(r"/-.*?-/", "", txt, flags=re.S)
-                    txt = re.sub(r"--.*", "", txt)
-                    mm = FORBIDDEN.search(txt)
-                    if mm:
-                        bad.append("%s: %s" % (f, mm.group(0).strip()))
+        seen = set()
+        todo = list(prop_modules) + (["Main"] if with_driver else [])
+        while todo:
+            m = todo.pop()
+            if m in seen:
+                continue
+            seen.add(m)
+            path = os.path.join(LEAN_DIR, *m.split(".")) + ".lean"
+            if not os.path.exists(path):
+                continue
+            txt = open(path).read()
+            for im in re.findall(r"^import\s+(GardenVerif\.[\w\.]+)", txt, flags=re.M):
+                todo.append(im)
+            txt = re.sub(r"/-.*?-/", "", txt, flags=re.S)
+            txt = re.sub(r"--.*", "", txt)
+            mm = FORBIDDEN.search(txt)
+            if mm:
+                bad.append("%s: %s" % (m, mm.group(0).strip()))
+        self.cov["lean_files_audited"] = len(seen)
         if bad:
             self.broken.append({"kind": "proof", "what": "forbidden construct in Lean sources",
                                 "detail": bad})
